@@ -659,27 +659,27 @@ def run(ctx):
         runs = [('A0 no fault', d0, 0), ('A1 any number of faults', d1, 99)] + ([] if ctx.quick else [('A2 at most one fault', d2, 1)])
         for name, depth, mf in runs:
             cfgp = os.path.join(tlc.BUILD, 'Keychain_%s_%d.cfg' % (ctx.tier, mf))
-            tlc.write_cfg(cfgp, constants=consts('{A, B}', depth=depth, maxfaults=mf), invariants=INVS, symmetry='Perms')
+            tlc.write_cfg(cfgp, spec='SpecA', constants=consts('{A, B}', depth=depth, maxfaults=mf), invariants=INVS, symmetry='Perms')
             r = tlc.run('Keychain', cfgp, coverage=True, workers=workers, timeout=3000)
             ctx.add_tlc('Keychain %s, depth %d, 2 identities x 2 keys x 2 certs' % (name, depth), r)
             ctx.note('%s depth %d: %d distinct states, %d transitions, %.0fs' % (name, depth, r.distinct, r.generated, r.wall))
             if r.violated:
                 report(ctx, 'C15/spec/%s' % r.violated, 'TLC: %s violated in Keychain (intended behaviour)' % r.violated,
                        {'kind': 'tlc', 'trace': r.errtrace})
-            for a in ('Step', 'Fail', 'Reopen') if mf else ('Step', 'Reopen'):
+            for a in ('Step', 'FailA', 'Reopen') if mf else ('Step', 'Reopen'):
                 if r.ok and r.coverage.get(a, (0, 0))[1] == 0:
                     raise tlc.MachineryError('vacuous: action %s never taken' % a)
         # each deviation flag (library as found) must break the invariant that speaks about it
         for f, depth in (('DevScope', 3), ('DevCacheLoc', 4), ('DevDelKey', 3), ('DevKeyId', 3), ('DevEmptyObj', 4)):
             cfgp = os.path.join(tlc.BUILD, 'Keychain_dev_%s.cfg' % ctx.tier)
-            tlc.write_cfg(cfgp, constants=consts('{"A", "B"}', depth=depth, devs={f: True}), invariants=INVS)
+            tlc.write_cfg(cfgp, spec='SpecA', constants=consts('{"A", "B"}', depth=depth, devs={f: True}), invariants=INVS)
             r = tlc.run('Keychain', cfgp, workers=1, heavy=False)
             if r.violated != DEV_BREAKS[f]:
                 raise tlc.MachineryError('deviation %s does not violate %s (got %s)' % (f, DEV_BREAKS[f], r.violated))
             ctx.note('as-found model %s: TLC finds %s violated after %d states' % (f, r.violated, r.distinct))
         # vacuity witnesses: situations the invariants talk about are reachable (one run, TLCSet registers)
         cfgp = os.path.join(tlc.BUILD, 'Keychain_w_%s.cfg' % ctx.tier)
-        tlc.write_cfg(cfgp, spec=None, init='WitnessInit', next_='Next', constants=consts('{"A", "B"}', depth=4),
+        tlc.write_cfg(cfgp, spec=None, init='WitnessInit', next_='NextA', constants=consts('{"A", "B"}', depth=4),
                       constraints=['WitnessMark'], postcondition='WitnessPost')
         r = tlc.run('Keychain', cfgp, workers=1, heavy=False)
         if 'UNREACHED' in r.out or not r.ok:
